@@ -2,25 +2,27 @@
 """Writes /verif/MANIFEST.json from the table below (kept next to the code so it stays current)."""
 import json
 
-CHECKS = {
-    'C20': {
-        'category': 'proof',
-        'text': ('Coq theorems over an executable model of eligible/aggregate/classify (grouping = at most one new group per '
-                 'candidate and none when it shares an actor or evidence id; insufficient iff nobody engaged; rejected needs '
-                 'decisive opposition; score in [0,1], monotone, symmetric over exact rationals; the binary64 score is a '
-                 'function of the multiset because the fold runs over the sorted maxima), generated facts re-extracted from '
-                 'the source on every run, and a bit-exact correspondence run of model vs implementation.'),
-        'design_ref': 'DESIGN.md section 4 / C20',
-        'note': ('Trusted: Coq kernel + vm_compute on primitive floats; translator; harness + hook '
-                 'projection::verif; IEEE facts about f64::total_cmp (premises). Rows are supplied decoded; the KQL glue '
-                 'around project_belief is exercised by the end-to-end part only.'),
-        'technique': 'Coq proof (induction over group lists, canonical sorted form) + translator-generated facts + differential model/impl run',
-    },
-}
+import glob
+import importlib
+import os
+import sys
 
-NOT_YET = {
-}
+sys.path.insert(0, '/verif/lib')
+sys.path.insert(0, '/verif/props')
+CHECKS = {}
+for _p in sorted(glob.glob('/verif/props/C*.py')):
+    _m = importlib.import_module(os.path.basename(_p)[:-3])
+    if getattr(_m, 'META', None):
+        CHECKS[os.path.basename(_p)[:-3]] = _m.META
 
+NOT_YET = {}
+for _p in sorted(glob.glob('/verif/props/C*.py')):
+    _m = importlib.import_module(os.path.basename(_p)[:-3])
+    if getattr(_m, 'NOT_APPLICABLE', None):
+        NOT_YET[os.path.basename(_p)[:-3]] = _m.NOT_APPLICABLE
+
+import subprocess
+HOOK_COMMITS = subprocess.run("git -C /repo log --format=%h --grep='^verif hook'", shell=True, stdout=subprocess.PIPE).stdout.decode().split()
 ALL = ['C%02d' % i for i in range(1, 21)]
 
 
@@ -50,7 +52,7 @@ def main():
             'guard': 'cfg(anda_verif)',
             'enable': 'RUSTFLAGS="--cfg anda_verif" (set by lib/vlib.py when building /verif/harness against /repo path dependencies)',
             'baseline_off_cmd': 'cd /repo && cargo test --workspace --no-fail-fast --offline',
-            'source_commits': json.load(open('/verif/hooks.json'))['commits'],
+            'source_commits': HOOK_COMMITS,
             'add_only': True,
         },
         'engines': [{
